@@ -589,6 +589,11 @@ def _parser_table(F, R, fn, step, has_dot, tier_full):
             names.setdefault("seen_dot", i)
         elif l["ty"] == adt and l["name"]:
             names.setdefault("sfn", i)
+        elif l["ty"] == "[u8; 11]" and l["name"] and upd:
+            names.setdefault("sfn_arr", i)          # the 11 bytes kept in a plain array, wrapped into the name type at the end
+    if "sfn" not in names and "sfn_arr" in names:
+        names["sfn"] = names["sfn_arr"]
+    is_arr = names.get("sfn") is not None and fn.locals[names["sfn"]]["ty"] == "[u8; 11]"
     need = ["idx", "sfn"] + (["seen_dot"] if has_dot else [])
     for n in need:
         if n not in names:
@@ -618,7 +623,7 @@ def _parser_table(F, R, fn, step, has_dot, tier_full):
                 I = Interp(F, mode="bv")
                 st = State()
                 contents = arr([sym_int(I.vars, "c%d" % k, 8) for k in range(11)])
-                sfn = agg("struct", adt, 0, [contents])
+                sfn = contents if is_arr else agg("struct", adt, 0, [contents])
                 preset = {dest: some(const(ch, 32)), names["idx"]: const(idx, 64), names["sfn"]: sfn, 1: TOP}
                 if has_dot:
                     preset[names["seen_dot"]] = const(sd, 1)
@@ -633,7 +638,7 @@ def _parser_table(F, R, fn, step, has_dot, tier_full):
                         fr = s2.frames[rv[2]]
                         ni = int_const(fr[names["idx"]])
                         nsd = bool(int_const(fr[names["seen_dot"]])) if has_dot else False
-                        nc = fr[names["sfn"]][4][0][1]
+                        nc = fr[names["sfn"]][1] if is_arr else fr[names["sfn"]][4][0][1]
                         changed = [(k, int_const(nc[k])) for k in range(11) if nc[k] != contents[1][k]]
                         if len(changed) == 0:
                             got.append(("ok", ni, nsd, None, None))
@@ -655,7 +660,7 @@ def _parser_table(F, R, fn, step, has_dot, tier_full):
         R.bad(fn, short + ":step-table", "%d of %d (character class, position, dot state) rows differ from the 8.3 rules; first: %s" % (len(bad), n, bad[0]), fn.loc(nb), trace=bad[:8])
     else:
         R.ok(fn, short + ":step-table", "%d rows (all Latin-1 code points + 4 beyond, positions %s, dot state) agree with the 8.3 rules" % (n, list(idxs)), fn.loc(nb))
-    return n
+    return n, names["sfn"]
 
 
 @rule("CD3", ["C18"], floor=4,
@@ -664,12 +669,15 @@ def cd3(F, R):
     import os
     full = os.environ.get("VERIF_TIER", "quick") == "thorough" or getattr(cd3, "_full", False)
     fn = F.fn("filesystem::filename::ShortFileName::create_from_str")
-    _parser_table(F, R, fn, _sfn_step, True, full)
+    r1 = _parser_table(F, R, fn, _sfn_step, True, full)
     fv = F.fn("fat::volume::VolumeName::create_from_str")
-    _parser_table(F, R, fv, _vol_step, False, full)
+    r2 = _parser_table(F, R, fv, _vol_step, False, full)
     # initial fill and special names
-    for f, adt in ((fn, "ShortFileName"), (fv, "VolumeName")):
+    for f, adt, r_ in ((fn, "ShortFileName", r1), (fv, "VolumeName", r2)):
         init = [f.term_of_rvalue(s["rv"], b) for b, i, s in f.stmts() if s["k"] == "Assign" and s["rv"]["k"] == "Aggregate" and s["rv"].get("adt", "").endswith(adt)]
+        if r_ and f.locals[r_[1]]["ty"] == "[u8; 11]":
+            # the bytes are collected in an array of their own: its definition before the loop
+            init = [f.term_of_rvalue(d[3], d[1]) for d in f.defs().get(r_[1], []) if d[0] == "assign" and d[3]["k"] in ("Repeat", "Aggregate", "Use")]
         ok = any(tstr(v).replace(" ", "") in ("%s{[0x20;11]}" % adt,) or ("[0x20" in tstr(v)) for v in init)
         R.require(ok, f, adt + ":space-fill", "the name must start as 11 spaces (padding); got %s" % [tstr(v) for v in init], f.loc(0))
     for nm, want in (("this_dir", b".          "), ("parent_dir", b"..         ")):
